@@ -20,13 +20,21 @@ CHECKS["C13"] = dict(
 )
 
 CHECKS["C14"] = dict(
-    explanation="Resources.Match executed symbolically on arbitrary pattern/subject bytes against a textbook glob matcher expressed as one formula.",
+    explanation="Resources.Match executed symbolically on arbitrary pattern/subject bytes against a textbook glob matcher expressed as one formula; "
+                "Actions.FindMatch and Principals.Contains on symbolic strings against the statement's matching rules; the deny-overrides fold "
+                "(VerifyBucketPolicy -> isAllowed -> findMatch) for every number of statements, effect and combination of leaf match results "
+                "(leaf matchers summarised by symbolic Booleans - compositional).",
     harnesses=[
         dict(name="H14a-glob", pkgs=["./auth"], entry="auth.VfGlobMatch", native=True, reach=["matched", "not-matched"]),
+        dict(name="H14b-fold", pkgs=["./auth"], entry="auth.VfPolicyFold", redirects="spec/redirects_policy.json", reach=["allowed", "denied"]),
+        dict(name="H14b-action", pkgs=["./auth"], entry="auth.VfActionMatch", native=True, reach=["matched", "not-matched"]),
+        dict(name="H14b-principal", pkgs=["./auth"], entry="auth.VfPrincipalMatch", native=True, reach=["checked"]),
         dict(name="H14a-witness", pkgs=["./auth"], entry="auth.VfGlobWitness", witness=True),
+        dict(name="H14b-witness", pkgs=["./auth"], entry="auth.VfPolicyWitness", redirects="spec/redirects_policy.json", witness=True),
     ],
     assumptions=["SMT solvers sound", "GoSE faithful to go/ssa semantics"],
-    outside=["patterns/subjects longer than the stated bounds"],
+    outside=["patterns/subjects longer than the stated bounds", "raw JSON lexing and the string-or-array shapes (encoding/json is a model)",
+             "put-time validation of documents (H14c: not built)"],
 )
 
 _C12_KEYS = dict(key_trace=['"class='])
@@ -96,4 +104,23 @@ CHECKS["C15"] = dict(
     assumptions=["fiber/fasthttp request context modelled (zzvfbe): route parameters, query flags, headers, locals as set by the authentication middleware",
                  "backend = recorder returning arbitrary results or errors", "XML/JSON request bodies = arbitrary value of the target type or malformed"],
     outside=["headers other than the stated set are absent", "admin API routes", "what a backend does after being called"],
+)
+
+
+CHECKS["C03"] = dict(
+    explanation="(a) route typestate: every S3 route handler runs symbolically over a recording backend with the access decision functions "
+                "replaced by recording stand-ins; on every path each backend call that reads or changes bucket/object data must be preceded by a "
+                "granted decision for the corresponding S3 action on exactly the bucket/object the call names, per key for batch deletes and for "
+                "the source of copies. (b) the decision functions themselves (real VerifyAccess, VerifyObjectCopyAccess, VerifyBucketPolicy) "
+                "against a reference: root/admin bypass, policy-else-ACL, symbolic caller/grantee/principal ids.",
+    harnesses=[
+        dict(name="H03b-routes", pkgs=["./s3api"], entry="s3api.VfAccess", redirects="spec/redirects_ctrl_stub.json", reach=["returned", "batch-delete"],
+             key_trace=['"route='], panic_ok=True),
+        dict(name="H03a-policyfold", pkgs=["./auth"], entry="auth.VfPolicyFold", redirects="spec/redirects_policy.json", reach=["allowed", "denied"]),
+        dict(name="H03a-verifyaccess", pkgs=["./s3api"], entry="s3api.VfVerifyAccess", redirects="spec/redirects_ctrl.json", reach=["granted", "denied"]),
+        dict(name="H03a-copyaccess", pkgs=["./s3api"], entry="s3api.VfCopyAccess", redirects="spec/redirects_ctrl.json", reach=["granted", "denied"]),
+    ],
+    assumptions=["fiber context, backend and XML/JSON decoding are models", "the table backend-method -> required S3 action (harness/tree/s3api/zz_vf_access.go) "
+                 "follows the AWS action names; look-ups a route makes for its own decisions are whitelisted explicitly"],
+    outside=["headers outside the stated set", "ListBuckets ownership filter (posix; not built)", "admin API role gate", "native replay (the stand-ins exist only in the engine)"],
 )
